@@ -18,7 +18,8 @@ from common import Check, tlc, WORK, ToolError
 import runtime
 
 PRELUDE = ("idf = #<'t>'t { $ }, mkp = #<'t>'t { Point[x: 1, y: ~] }, mkf = #'int { c = ~, #'int { [~, c] __integer_add__ } }, "
-           "inc = #'int { [~, 1] __integer_add__ }")
+           "inc = #'int { [~, 1] __integer_add__ }, "
+           "mkb = #'bin { c = ~, #'int { [c, ~] } }, mkt = #Point[x: 'int, y: 'int] { c = ~, #'int { [c, ~] } }")
 MODULES = {"m": "[p: Point[x: 1, y: 2], n: 5, b: 0x0102, s: \"hi\", q: [x: 1, y: 2], nest: A[b: [0x0102, 5]]]"}
 UNION = "'u = 'int | 'bin | [] | Ok | Point[x: 'int, y: 'int] | [x: 'int, y: 'int] | Point['int, 'int] | ['int, 'int] | Str['bin] | A[b: ['bin, 'int]] | B[b: ['bin, 'int]]"
 
@@ -55,6 +56,13 @@ VALUES = {
     "fn_inc": (None, False, ["&inc", "&inc idf"]),
     "clo1": (None, False, ["1 mkf", "[0, 1] __integer_add__ mkf"]),
     "clo2": (None, False, ["2 mkf"]),
+    # closures of one definition whose captured value is equal but REPRESENTED differently: another heap slot, a
+    # tuple inferred along another path (seeded change C13-2: captures were compared with the derived PartialEq,
+    # i.e. by heap slot index and raw tuple id)
+    "clob12": (None, False, ["0x0102 mkb", "[0x01, 0x02] __binary_concat__ mkb", "[0x010203, 0, 2] __binary_slice__ mkb", "%m.b mkb"]),
+    "clob1": (None, False, ["0x01 mkb", "[0x0102, 0, 1] __binary_slice__ mkb"]),
+    "clot12": (None, False, ["Point[x: 1, y: 2] mkt", "2 mkp mkt", "Point[...[x: 1, y: 2]] mkt", "%m.p mkt"]),
+    "clot13": (None, False, ["Point[x: 1, y: 3] mkt", "3 mkp mkt"]),
 }
 HISTORY = ["Point[x: 0x01, y: 0x02], Pair[a: 1, b: 2], [x: 9, y: 9]", "zz = #'bin { [~, 0x0102] __binary_concat__ }, 0x01 zz"]
 
@@ -115,12 +123,18 @@ def run(prop, tier):
                 pairs = rnd.sample(pairs, min(len(pairs), 2 if tier == "quick" else 6))
             for pa, pb in pairs:
                 for use_union in ((False, True) if (ua and ub) else (False,)):
-                    for mode in ("program", "session", "history") if (same or rnd.random() < 0.3) else ("program",):
+                    if same and tier == "quick":
+                        modes = ("program", rnd.choice(["session", "history"]))
+                    elif same or rnd.random() < 0.3:
+                        modes = ("program", "session", "history")
+                    else:
+                        modes = ("program",)
+                    for mode in modes:
                         cases.append((va, vb, pa, pb, lb, use_union, mode, same))
     if tier == "quick" and len(cases) > 1500:
         keep = [c for c in cases if c[7]]
         rest = [c for c in cases if not c[7]]
-        cases = keep[:1100] + rnd.sample(rest, min(len(rest), 500))
+        cases = keep + rnd.sample(rest, min(len(rest), 500))        # every same-value pair of paths is kept
     reqs = []
     for n, (va, vb, pa, pb, lb, uu, mode, same) in enumerate(cases):
         src = program(pa, pb, lb, uu)
